@@ -35,7 +35,7 @@ PROP = {
     "harness": "c14",
     "driver": "c14",
     "n_quick": 3000,
-    "n_thorough": 400000,
+    "n_thorough": 250000,
     "harness_args": harness_args,
     "harness_timeout": 3000,
     "trusted": [
